@@ -1,4 +1,6 @@
 """C04 — Wasserstein solvers: mass balance, self-consistent results, status under injected faults."""
+import contextlib
+import io
 import json
 import random
 import warnings
@@ -149,7 +151,7 @@ def run_case(darsia, rng, tid, c):
     try:
         with warnings.catch_warnings(record=True) as wl:
             warnings.simplefilter("always")
-            with np.errstate(all="ignore"):
+            with np.errstate(all="ignore"), contextlib.redirect_stdout(io.StringIO()):
                 dist, info = w1(img1, img2)
             caught = [str(x.message) for x in wl if "abruptly stopped" in str(x.message)]
             post_failed = any("pressure recovery failed" in str(x.message) for x in wl)
@@ -348,6 +350,14 @@ def configs(rng, quick, terminals):
             out.append({"shape": [3, 4], "h": [0.5, 0.25], "method": method, "l1": rng.choice(l1s), "mob": rng.choice(mobs),
                         "opts": {"num_iter": ni, "formulation": form, "linear_solver": ls, "L": 1.0 if method == "bregman" else 1e-2},
                         "mass": "dense", "mseed": rng.randrange(10 ** 6), "fault": None, "adaptive": False, "weight": None, "second": ni == 0})
+    # runs that report their progress (verbose=True) on a large domain with un-normalised masses (distance well above 1), the
+    # distance criterion binding: the status is the one the criteria give, whether or not the iteration is printed
+    for method in ("newton", "bregman"):
+        for verbose in (True, False):
+            out.append({"shape": [4, 5], "h": [3.0, 2.0], "method": method, "l1": rng.choice(l1s), "mob": rng.choice(mobs),
+                        "opts": {"num_iter": 40, "formulation": "pressure", "linear_solver": "direct", "L": 1.0 if method == "bregman" else 1e-2,
+                                 "tol_distance": 1e-4, "verbose": verbose},
+                        "mass": "dense", "mseed": 4242, "fault": None, "adaptive": False, "weight": None})
     # the recorded instance of that defect (thorough tier, seed 0), ending right after the perturbed iterate
     for ni, fault in ((2, None), (6, 2)):
         out.append({"shape": [1, 5], "h": [0.1, 0.3], "method": "newton", "l1": "CONSTANT_SUBCELL_PROJECTION", "mob": "CELL_BASED",
